@@ -1,5 +1,5 @@
 SPECIFICATION Spec
-CONSTANT Kind = "ens"
+CONSTANT Kind = "win"
 INVARIANT InvAccIsPreAgg
 INVARIANT InvCdfMonotone
 INVARIANT InvPitRange
